@@ -7,6 +7,7 @@ import os
 import random
 import signal
 import sys
+import re
 import traceback
 
 ALPHABET = ["a", "f", "x", "#", "@", "*", ".", "/", "!", "$", "(", ")", ">", ":", ",", "=", "~", " ", " as ", "'", "1", "T"]
@@ -18,6 +19,18 @@ def _classify(fn, s):
 
     try:
         r = fn(s)
+        # an operator of the selector language is not a variable: a string such as ")" or "f(!:T)" must not compile to a selector that
+        # captures a variable CALLED ")" or "!" (such a selector can never match anything)
+        todo, seen = [r], []
+        while todo:
+            x = todo.pop()
+            if isinstance(x, sel.Element):
+                seen += [v for v in (x.name, x.capture) if isinstance(v, str)]
+            elif isinstance(x, sel.Call):
+                todo += [x.element, *x.captures, *x.children]
+        bad = [v for v in seen if re.fullmatch(r"\s*(?:\bas\b|>>|!+|\[\[|\]\]|[(){}\[\]>:,$=~])\s*", v)]
+        if bad:
+            return f"operator-token-compiled-as-a-variable-name({bad[0]!r})"
         return None
     except SyntaxError as e:
         # "a syntax error (with the offending position)": line 1, and the offset points at the text the error carries -- in the
